@@ -228,7 +228,7 @@ fn is_rule(t: &str) -> bool {
 
 /// The tool's own vocabulary for truth-table entries (the spellings `-f` / `-c` accept),
 /// case-insensitively.
-fn entry(x: &str) -> Option<Cell> {
+pub fn entry(x: &str) -> Option<Cell> {
     match x.to_lowercase().as_str() {
         "true" | "t" | "1" => Some(Cell::True),
         "false" | "f" | "0" => Some(Cell::False),
